@@ -22,7 +22,7 @@ add(
 add(
     "C05",
     "property-based testing: generated nestings of binder constructors with adversarially coinciding names vs. a lexically scoped reference evaluator, plus the metamorphic relation 'rename every binder to a fresh name'",
-    "Bounded exploration: expressions nesting Reduce/Lambda/Independent/Cat/Integrate/Approximate/Subs binders over a 2-3 name pool, built under eager/lazy/reflect/normalize and reinterpreted; inputs must equal the lexical free names (no __BOUND name ever), values must equal the lexically scoped oracle everywhere, and renaming all binders must change nothing. Also: histories (a live binder, 0-400 unrelated binders, a capturing substitution, a re-used binder name; uniqueness of the fresh-name supply) and funsor.factory terms whose fresh name re-uses a bound name; MarkovProduct binders (one data set under two assignments of pair names and two time names, lazy/reflect/eager, then a substituted value with a free variable named like the bound time variable or a step name).",
+    "Bounded exploration: expressions nesting Reduce/Lambda/Independent/Cat/Integrate/Approximate/Subs binders over a 2-3 name pool, built under eager/lazy/reflect/normalize and reinterpreted; inputs must equal the lexical free names (no __BOUND name ever), values must equal the lexically scoped oracle everywhere, and renaming all binders must change nothing. Also: histories (a live binder, 0-400 unrelated binders, a capturing substitution, a re-used binder name; uniqueness of the fresh-name supply) and funsor.factory terms whose fresh name re-uses a bound name; MarkovProduct binders (one data set under two assignments of pair names and two time names, lazy/reflect/eager, then a substituted value with a free variable named like the bound time variable or a step name); Scatter binders (bare reduced variables and index tensors as destinations) against a direct sum; Integrate over variables only one of its fields mentions.",
     "Trusts vf/lang.py (environment-extension semantics) and its alpha-renaming helper (cross-checked: oracle(renamed)==oracle(original) on every case through the value comparison). One open known finding (lazy Approximate) is excluded by construction.",
     "DESIGN.md section 3 C05",
 )
@@ -71,7 +71,7 @@ add(
 add(
     "C14",
     "property-based testing: generated Deltas and sampling scenarios with a seeded RNG vs. explicit indicator semantics, exact mass identities and dense Gaussian moments",
-    "Bounded exploration of (1) Delta evaluation by substitution at every candidate value, reduction and integration against the point value (unit mass); (2) Tensor.sample over every subset of inputs with -inf entries and 0-2 particle inputs: type, support, exact mass for every batch element and particle, determinism; (3) Gaussian.sample: mass vs the closed-form marginal, determinism, and reparametrised samples recovered as an affine map of the noise with exactly the Gaussian's mean and covariance. Also: point masses inside the generated term language (several Deltas, one point a function of another's variable, reductions / Integrate over some of a Delta's variables) against the reference semantics of vf/lang.py; a Delta over several real inputs of a Gaussian (terms in any order) integrated / reduced / substituted, some inputs left free.",
+    "Bounded exploration of (1) Delta evaluation by substitution at every candidate value, reduction and integration against the point value (unit mass); (2) Tensor.sample over every subset of inputs with -inf entries and 0-2 particle inputs: type, support, exact mass for every batch element and particle, determinism; (3) Gaussian.sample: mass vs the closed-form marginal, determinism, and reparametrised samples recovered as an affine map of the noise with exactly the Gaussian's mean and covariance. Also: point masses inside the generated term language (several Deltas, one point a function of another's variable, reductions / Integrate over some of a Delta's variables) against the reference semantics of vf/lang.py; a Delta over several real inputs of a Gaussian (terms in any order) integrated / reduced / substituted, some inputs left free; a sample used as a measure over the sampled inputs, a superset and a subset; log-weights of very different scales along batch inputs.",
     "Trusts numpy's seeded global RNG as the only randomness of the numpy backend, the C13 dense closed forms, and Delta.terms for locating sample points.",
     "DESIGN.md section 3 C14",
 )
@@ -106,7 +106,7 @@ add(
 add(
     "C19",
     "property-based testing: generated arrays/name maps and funsors vs. explicit numpy indexing (round trip), plus metamorphic relations for align and materialize",
-    "Bounded exploration: to_funsor with every placement of names over rank 0-5 arrays (real and bounded-integer, event rank 0-2) compared element-wise at every named point, to_data round trip up to size-1 batch dims and independent of the funsor's input order; align with permutations on Tensors (data == transposed array), lazy terms, Contractions and Gaussians (value at every point); Tensor.materialize of lazy index expressions against the reference evaluator. Also: Gaussians with up to four equal-sized integer inputs (permutations that are not their own inverse), one prototype materialising two expressions whose inputs re-use names with other sizes; a Variable or strided Slice substituted onto the name of another kept input (diagonal), against direct numpy indexing.",
+    "Bounded exploration: to_funsor with every placement of names over rank 0-5 arrays (real and bounded-integer, event rank 0-2) compared element-wise at every named point, to_data round trip up to size-1 batch dims and independent of the funsor's input order; align with permutations on Tensors (data == transposed array), lazy terms, Contractions and Gaussians (value at every point); Tensor.materialize of lazy index expressions against the reference evaluator. Also: Gaussians with up to four equal-sized integer inputs (permutations that are not their own inverse), one prototype materialising two expressions whose inputs re-use names with other sizes; a Variable or strided Slice substituted onto the name of another kept input (diagonal), against direct numpy indexing; Tensor.new_arange with 1-4 arguments against the lazy Slice and its materialisation; bounded-integer outputs under align.",
     "Trusts numpy indexing/transposition and vf/lang.py for lazy terms; align is exercised with permutations of all names on non-Tensor terms (as documented).",
     "DESIGN.md section 3 C19",
 )
@@ -120,7 +120,7 @@ add(
 add(
     "C07",
     "model-based (stateful) property testing: generated construct/drop/gc/pickle/copy/reinterpret/reallocate histories over a pool of term, domain and op recipes against a reference model of structural keys with arrays compared by identity",
-    "Bounded exploration of 6-24 step histories plus two scenario families (a parametrised op and freshly sized domains used by a term or by find_domain and then dropped must be dead; every documented domain form and variables over them through pickle / deepcopy): after every step two live reflect-level handles must be identical iff their structural keys are equal, constructed objects carry exactly the requested arguments (array identity, op parameters such as alternative slice spellings), pickle/copy/reinterpret under reflect return the identical object, and every term (and every Variable inside a frozenset argument) that no live handle reaches must be dead after gc.collect(). Also: rejected malformed domain requests that compare equal to valid ones; domains validated field by field.",
+    "Bounded exploration of 6-24 step histories plus two scenario families (a parametrised op and freshly sized domains used by a term or by find_domain and then dropped must be dead; every documented domain form and variables over them through pickle / deepcopy; every spelling of one op parametrisation - positional, defaults omitted, keywords, method API, pickle - must give the one live object): after every step two live reflect-level handles must be identical iff their structural keys are equal, constructed objects carry exactly the requested arguments (array identity, op parameters such as alternative slice spellings), pickle/copy/reinterpret under reflect return the identical object, and every term (and every Variable inside a frozenset argument) that no live handle reaches must be dead after gc.collect(). Also: rejected malformed domain requests that compare equal to valid ones; domains validated field by field.",
     "Relies on CPython reference counting + gc.collect(); identity is demanded only for constructions that do not evaluate; domains, ops and parametrised types inside recipe histories are checked for identity; reclamation of ops and domains is checked in the used-then-dropped scenario.",
     "DESIGN.md section 3 C07",
 )
